@@ -279,7 +279,7 @@ chk("C03", "other",
     "Two kernels of the link machinery are modelled as the code is written and proved: Model/LinkDest.v (__encode_link_destination: the loop computes the character-wise normalisation, "
     "the result is attribute-safe ASCII for all Unicode input, existing percent escapes stay wherever they stand) and Model/LinkLabel.v (normalize_link_label is a one-pass normal form, idempotent, "
     "insensitive to ASCII case and to the kind and amount of white space; add_link_definition / look_up_link: the first definition with a matching label wins) - tied by calling the real functions on every short string over "
-    "12-character alphabets and on random definition scripts (vm_compute), and by link / image / definition documents. A third kernel, Model/ThematicBreak.v, proves that is_thematic_break answers exactly as the sentence of CommonMark 4.1 for every indentation (tabs by their width) and rest of the line, tied on every line of <= 6 characters over {-, *, _, space, tab, a} and on those lines as documents. A fourth, Model/AtxOpen.v, does the same for is_atx_heading and CommonMark 4.2 (lines of <= 7 characters over {#, space, tab, a}). Outside F and these kernels (the rest of link and image parsing, HTML, named entities, backslash escapes, tabs) nothing is claimed.",
+    "12-character alphabets and on random definition scripts (vm_compute), and by link / image / definition documents. A third kernel, Model/ThematicBreak.v, proves that is_thematic_break answers exactly as the sentence of CommonMark 4.1 for every indentation (tabs by their width) and rest of the line, tied on every line of <= 6 characters over {-, *, _, space, tab, a} and on those lines as documents. A fourth, Model/AtxOpen.v, does the same for is_atx_heading and CommonMark 4.2 (lines of <= 7 characters over {#, space, tab, a}). A fifth, Model/AppendText.v, proves that the loop of InlineHelper.append_text appends exactly the specification renderer's escaping and that, with the text signature, the C02 codec recovers the source and resolves to the escaped text (strings of <= 6 characters over 7). Outside F and these kernels (the rest of link and image parsing, HTML, named entities, backslash escapes, tabs) nothing is claimed.",
     "Trusted: Coq kernel, extraction + driver.ml, the spec model as a specification (validated, not verified), markdown-it-py (vendored) as arbiter, norm_html.",
     "Gallina spec model of CommonMark blocks (validated on spec examples) + refinement by HTML comparison on enumerated documents (category 'other')",
     "DESIGN.md section 4 C03")
